@@ -498,6 +498,13 @@ def broken_rhythm(ctx, ci):
   ctx.require(len(lens) == 2, '_apply_broken_rhythm: the two note lengths were not found')
   n1 = norm_text([st for st in U.walk_stmts(m.node) if isinstance(st, ast.Assign) and norm_text(st.targets[0]) == lens[0]][0].value.left).split('.')[0]
   n2 = norm_text([st for st in U.walk_stmts(m.node) if isinstance(st, ast.Assign) and norm_text(st.targets[0]) == lens[1]][0].value.left).split('.')[0]
+  # which of the two is the earlier note is decided by how it is fetched (notes[-2] before notes[-1]), not by statement order
+  pos = {}
+  for st in U.walk_stmts(m.node):
+    if isinstance(st, ast.Assign) and isinstance(st.targets[0], ast.Name) and isinstance(st.value, ast.Subscript) and isinstance(U.const_value(st.value.slice), int):
+      pos[st.targets[0].id] = U.const_value(st.value.slice)
+  if n1 in pos and n2 in pos and pos[n1] > pos[n2]:
+    n1, n2 = n2, n1
   # equal-length precondition
   eq = [s for s in U.walk_stmts(m.node) if isinstance(s, ast.If) and any(isinstance(x, ast.Raise) for x in s.body) and
         U.eq_sides(s.test, lambda a: norm_text(a) == lens[0], lambda b: norm_text(b) == lens[1], ops=(ast.NotEq,))]
@@ -530,7 +537,7 @@ def broken_rhythm(ctx, ci):
     if len(st) == 1:
       try:
         got = nf.rat(st[0].value)
-        ok = got.equals(nf.rat(U.E('%s - %s / (2 ** len(%s))' % (lens[0], lens[0], sym))))
+        ok = any(got.equals(nf.rat(U.E('%s - %s / (2 ** len(%s))' % (ln, ln, sym)))) for ln in lens)      # the two lengths were checked equal
       except nf.NFError:
         ok = False
     ctx.ob('RHYTHM/shift', m, st[0] if st else m.node, ok, 'the boundary moves by len - len / 2**n (dotted / double dotted / triple dotted first note)' if ok else
